@@ -119,7 +119,7 @@ pub fn run(seed: u64, thorough: bool, out_dir: &Path, scratch: &Path) -> Out {
     cf.group("freeze", "fzcase", "check_fzcase");
     let mut descs: BTreeMap<String, Vec<Value>> = BTreeMap::new();
     let ft = ckb_systemtime::faketime();
-    let n_hist = if thorough { 12 } else { 2 };
+    let n_hist = hx_common::shard_share(if thorough { 12 } else { 2 });
     for hi in 0..n_hist {
         let cfg = ChainCfg { window: *rng.pick(&[(1u64, 2u64), (2, 4)]), genesis_epoch_length: *rng.pick(&[3u64, 4, 5]), ..Default::default() };
         let dir = scratch.join(format!("n{hi}"));
